@@ -1,5 +1,6 @@
 /- Line-protocol front end for the serdes framework model (`sd` lines). -/
 import VC2.Model.SerdesCodec
+import VC2.Model.SerdesDefaults
 namespace VC2.Model.Serdes
 
 def parsePrim (s : String) : Option Prim :=
@@ -99,6 +100,30 @@ partial def showDict (d : Dict) : String :=
   String.join ((d.mergeSort (fun a b => a.1 ≤ b.1)).map (fun kv => kv.1 ++ " " ++ showVal kv.2 ++ " "))
 end
 
+/-- default table entries: `ctx target <leaf> …` (the top-level context is written `_`) -/
+partial def parseTable (ws : List String) : Option (List (String × String × Leaf)) :=
+  match ws with
+  | [] => some []
+  | c :: t :: rest =>
+    match parseVal rest with
+    | some (.leaf v, rest') => (parseTable rest').map (fun l => ((if c == "_" then "" else c), t, v) :: l)
+    | _ => none
+  | _ => none
+
+def tableOf (l : List (String × String × Leaf)) : Defaults :=
+  fun c t => (l.find? (fun e => e.1 == c && e.2.1 == t)).map (·.2.2)
+
+/-- `sd F <program> :: <entries> :: <default table>` → as `S`, for the Serialiser WITH a default table -/
+def handleSdF (ws : List String) : String :=
+  let (pw, r1) := ws.span (· != "::")
+  let (ew, r2) := (r1.drop 1).span (· != "::")
+  match parseStmts pw, parseEntries (ew ++ ["}"]), parseTable (r2.drop 1) with
+  | some (prog, []), some (d, ["}"]), some tb =>
+    match serialiseD bitCodec (tableOf tb) prog d with
+    | some (bits, used) => "OK " ++ showBits bits ++ " | " ++ showDict used
+    | none => "FAIL"
+  | _, _, _ => "bad-op"
+
 /-- `sd S <program> :: <entries>`  → `OK <bits> | <used description>`  or `FAIL`
     `sd D <program> :: <bits>`     → `OK <description> | <number of bits left>` or `FAIL` -/
 def handleSd (ws : List String) : String :=
@@ -114,6 +139,7 @@ def handleSd (ws : List String) : String :=
         | none => "NOENC"
       | none => "FAIL"
     | _, _ => "bad-op"
+  | "F" :: rest => handleSdF rest
   | mode :: rest =>
     let (pw, aw) := rest.span (· != "::")
     match parseStmts pw with
